@@ -2,6 +2,10 @@
 
 package submission
 
-import ct "github.com/google/certificate-transparency-go"
+import (
+	"context"
 
-func simYield(string, string, string, []ct.ASN1Cert) {}
+	ct "github.com/google/certificate-transparency-go"
+)
+
+func simYield(context.Context, string, string, string, []ct.ASN1Cert) {}
